@@ -29,7 +29,7 @@ let () =
     let cfg = { has_map = contains stack "map"; has_enum = contains stack "enum"; enum_first = idx_of stack "enum" < idx_of stack "map";
                 c_take = (if contains stack "take" then (match take with Some t -> Some (nat_of_int t) | None -> None) else None);
                 c_lim = (if contains stack "lim" then (match lim with Some l -> Some (nat_of_int l) | None -> None) else None);
-                c_term = (match term with "fe" -> TForEach | "tfe" -> TTryForEach | _ -> TCollect) } in
+                c_term = (match term with "fe" -> TForEach | "tfe" -> TTryForEach | "rcol" -> TCollectRes | _ -> TCollect) } in
     let toks = List.tl (List.filter (fun s -> s <> "") (split ' ' trace)) in
     let cur = ref (-1) and panic = ref false in
     let evs = ref [] in
@@ -47,7 +47,7 @@ let () =
       else if t = "=R" || starts "=F" t then begin
         let err = if starts "=F" t then Some (nat_of_int (int_of_string (after "=F" t))) else None in
         if !cur >= 1 && !cur <= n then add (EDone (nat_of_int 1, nat_of_int (!cur - 1), err))
-        else if !cur > n then add (EDone (nat_of_int 0, nat_of_int (!cur - 1 - n), None)) end
+        else if !cur > n then add (EDone (nat_of_int 0, nat_of_int (!cur - 1 - n), (if term = "rcol" then err else None))) end
       else if t = "=X" || t = "E:X" then panic := true
       else if starts "D" t then begin let i = int_of_string (after "D" t) in
         if i >= 1 && i <= n then add (EDropWork (nat_of_int 1, nat_of_int (i - 1))) else if i > n then add (EDropWork (nat_of_int 0, nat_of_int (i - 1 - n))) end
